@@ -267,5 +267,14 @@ def run(ctx):
     run.rule(R6, "no write is silently lost: a batch that received a write is committed (Ok) before the function returns Ok", floor=30)
     from .shared import writes_committed
     writes_committed(ctx, R6)
+    R7 = "C06.R7"
+    run.rule(R7, "the signing context is deleted last: only after the finalised transaction and its log entry are stored (a crash or write error in between leaves a transaction that can still be completed or cancelled)", floor=2)
+    fz7 = c.LW + "api_impl::foreign::finalize_tx"
+    ffz7 = ctx.fn(fz7)
+    if ffz7 is None:
+        run.error("C06.R7: foreign::finalize_tx not found")
+    else:
+        c.require_pass(ctx, R7, fz7, c.LW + "internal::tx::update_stored_tx", ("call", c.WOB + "delete_private_context"), "delete_private_context requires update_stored_tx Ok")
+        c.require_pass(ctx, R7, fz7, c.LW + "internal::tx::complete_tx", ("call", c.WOB + "delete_private_context"), "delete_private_context requires complete_tx Ok")
     run.not_decided += ["that the invariants hold at every crash point of every multi-batch operation (an enumeration over executions); R1-R3 are the structural conditions the code relies on", "LMDB's own atomicity / durability", "file-system semantics of rename/remove"]
     run.assumptions.append(_SUPPLY)
